@@ -40,6 +40,8 @@ def node_detail(ev):
         return "%s:%s" % (ev["ev"], ev.get("n"))
     if ev.get("ev") == "Getxattr":
         return "Getxattr:%s" % ev.get("k")
+    if ev.get("errno") not in (None, "OK"):
+        return "%s-%s" % (ev.get("ev"), ev.get("errno"))
     return str(ev.get("ev"))
 
 
@@ -58,7 +60,7 @@ def validate_node(run, path, store, ov, what):
         bad = events[line - 1] if line else {}
         cfg = tr[1][0]
         where = "root" if cfg.get("root") else "subdir"
-        sig = "monitor:%s:%s:%s" % (viol, node_detail(bad), where)
+        sig = "monitor:%s:%s:%s:%s" % (viol, node_detail(bad), where, store)
         run.violation(sig, "%s false on results of real nodes (%s store, %s, mode %s, directory content %s) at call %d: %s" %
                       (viol, store, where, cfg.get("mode"), json.dumps(cfg.get("src")), idx, json.dumps(bad)),
                       {"formula": viol, "store": store, "config": cfg, "call_index": idx, "trace": tr[1][: idx + 1]})
@@ -165,7 +167,7 @@ def design_level(run, thorough, base):
     oc2 = {"MaxLayers": "2", "LmChoices": '{"none", ".prefetch.landmark", ".no.prefetch.landmark"}', "PfChoices": "{TRUE, FALSE}",
            "SubLmChoices": "{TRUE, FALSE}"} if thorough else {"MaxLayers": "2"}
     run.tlc_mc("OverlayCheck", "OverlayCheck_mc.cfg", oc2, workers=8 if thorough else 4, timeout=3000, name="OverlayCheck_mc.cfg all pairs")
-    oc3 = {"MaxLayers": "3", "PfChoices": "{TRUE, FALSE}"} if thorough else {"MaxLayers": "3", "TopAChoices": "{FALSE}"}
+    oc3 = {"MaxLayers": "3"} if thorough else {"MaxLayers": "3", "TopAChoices": "{FALSE}"}
     run.tlc_mc("OverlayCheck", "OverlayCheck_mc.cfg", oc3, workers=12 if thorough else 4, timeout=3000, name="OverlayCheck_mc.cfg triples")
     for ovr in ({"RealWins": "FALSE"}, {"OpaqueOn": "FALSE"}, {"MountKeyMatches": "FALSE", "Modes": '{"trusted", "user"}'}):
         run.tlc_negctl("OverlayCheck", "OverlayCheck_mc.cfg", dict({"MaxLayers": "2", "TopAChoices": "{FALSE}"}, **ovr), ["MergeEqualsApply"],
@@ -218,7 +220,7 @@ def validate_stacks(run, thorough, store, spath, layers, modes):
     if True:
         served = read_ndjson(spath)
         line_of = {(e["layer"], e["mode"]): i + 1 for i, e in enumerate(served)}
-        # stacks: every single layer in every mode, pairs and triples sampled by seed (all pairs when thorough)
+        # stacks: every single layer in every mode, pairs and triples sampled by seed
         stacks = []
         rng = random.Random(run.seed * 7919 + (1 if store == "db" else 0))
 
@@ -230,7 +232,7 @@ def validate_stacks(run, thorough, store, spath, layers, modes):
                             else ["trusted.overlay.opaque", "user.overlay.opaque"]):
                     add([i], mode, key)
         mk = [("trusted", "trusted.overlay.opaque"), ("user", "user.overlay.opaque"), ("all", "trusted.overlay.opaque"), ("all", "user.overlay.opaque")]
-        npairs, ntriples = (nl * nl, 20000) if thorough else (1500, 1500)
+        npairs, ntriples = (30000, 30000) if thorough else (1500, 1500)
         pairs = [(a, b) for a in range(1, nl + 1) for b in range(1, nl + 1)]
         rng.shuffle(pairs)
         for n, (a, b) in enumerate(pairs[:npairs]):
@@ -253,7 +255,7 @@ def validate_stacks(run, thorough, store, spath, layers, modes):
                 detail = "stack:" + "|".join(",".join(sorted(layers[x - 1]["top"]) + sorted("d/" + y for y in layers[x - 1]["sub"].get("d", {}))) for x in s["layers"])
             else:
                 detail = "layer:" + ",".join(sorted(top["model"]["top"]) + sorted("d/" + y for y in top["model"]["sub"].get("d", {})))
-            run.violation("overlay:%s:%s" % (mr.violated, detail),
+            run.violation("overlay:%s:%s:%s" % (mr.violated, detail, store),
                           "%s false on trees served by real nodes (%s store): stack (lowest first) %s, mount key %s" %
                           (mr.violated, store, json.dumps([layers[x - 1] for x in s["layers"]]), s["key"]),
                           {"formula": mr.violated, "store": store, "stack": s, "served": [served[i - 1] for i in s["lines"]]})
